@@ -168,6 +168,18 @@ class Ex:
         return ".cls .%s" % n if n else None
 
 
+def force_pending_registrations():
+    """register_type_on_first_use: make the union of deserializer_exceptions independent of what was parsed before"""
+    import datetime
+    import decimal
+    import uuid
+
+    from jsonargparse import typing as jt
+
+    for cls in (decimal.Decimal, uuid.UUID, datetime.timedelta, bytes, bytearray):
+        jt.get_registered_type(cls)
+
+
 # ----------------------------------------------------------------------------- handler body analysis
 def _helper_raises(ex: Ex, helper, where):
     """class raised by raise_unexpected_value / raise_union_unexpected_value / returned by argument_error"""
@@ -320,14 +332,21 @@ def generate(problems):
     t, h = _try_with_call(fn, "Path") if fn else (None, None)
     if h is not None and handler_act(ex, h.body, "_core.py", "parse_path") == ".callsError":
         put("pathOwn", "_core.py", "ArgumentParser.parse_path handler around Path(..)", h.type, h.body)
+        # further handlers of the same try (2c9f0ad: `except (ValueError, OSError)` -> self.error, get_content() inside the try)
+        more = [x for x in t.handlers if x is not h and handler_act(ex, x.body, "_core.py", "parse_path") == ".callsError"]
+        if more and "get_content" in _calls(t.body):
+            put("pathRead", "_core.py", "ArgumentParser.parse_path second handler of the try around Path(..) and get_content()", more[0].type, more[0].body)
+        else:
+            missing("pathRead", "ArgumentParser.parse_path `except (ValueError, OSError)` around Path(..) and get_content() calling self.error")
         outer = _outer_error_try(fn)
         if outer and outer[1] is not t and "parse_string" in _calls(outer[1].body):
             put("outer .parsePath", "_core.py", "ArgumentParser.parse_path outer handler", outer[2].type, outer[2].body)
-        elif "parse_string" in _calls(t.body) or "get_content" in _calls(t.body):
+        elif "parse_string" in _calls(t.body):
             # one handler around everything
             put("outer .parsePath", "_core.py", "ArgumentParser.parse_path handler around the whole body", h.type, h.body)
     else:
         missing("pathOwn", "ArgumentParser.parse_path handler around Path(..) calling self.error")
+        missing("pathRead", "ArgumentParser.parse_path `except (ValueError, OSError)` around Path(..) and get_content() calling self.error")
 
     fn = _func(core, "ArgumentParser.parse_known_args")
     best = _outer_error_try(fn) if fn else None
@@ -435,6 +454,19 @@ def generate(problems):
             put(name, "_typehints.py", "adapt_typehints %s handler" % what, h.type, h.body)
         else:
             missing(name, "adapt_typehints %s handler" % what)
+    # dataclass-like branch: `try: val = parser.parse_object(..) except ArgumentError` (52e5b95); both calls must be wrapped alike
+    dc = []
+    if fn:
+        for t in sorted(_tries(fn), key=lambda t: t.lineno):
+            src = ast.unparse(ast.Module(body=t.body, type_ignores=[])).strip()
+            if src.startswith("val = parser.parse_object(") or src.startswith("val = parser.parse_args("):
+                dc.append(t)
+    kinds = {ast.unparse(ast.Module(body=t.body, type_ignores=[])).strip().split("(")[0] for t in dc}
+    if len(dc) >= 2 and kinds == {"val = parser.parse_object", "val = parser.parse_args"} and \
+            len({(ast.unparse(t.handlers[0].type), handler_act(ex, t.handlers[0].body, "_typehints.py", "dataclass branch")) for t in dc}) == 1:
+        put("dataclassBranch", "_typehints.py", "adapt_typehints dataclass branch handlers around the internal parser", dc[0].handlers[0].type, dc[0].handlers[0].body)
+    else:
+        missing("dataclassBranch", "adapt_typehints dataclass branch: handlers around parser.parse_object / parser.parse_args")
     # Enum: `try: val = typehint[val] except KeyError`
     enum_try = None
     type_try = None
@@ -638,11 +670,18 @@ def generate(problems):
                 for kw in n.keywords:
                     if kw.arg == "exit_on_error" and isinstance(kw.value, ast.Constant):
                         return bool(kw.value.value)
+                    if kw.arg == "exit_on_error" and ast.unparse(kw.value) == "parser.exit_on_error":
+                        return None  # inherits
+                    if kw.arg == "exit_on_error":
+                        problems.append("ExcFlow: %s passes exit_on_error=%s" % (where, ast.unparse(kw.value)))
                 return bool(default_eoe)
         problems.append("ExcFlow: %s no longer creates a parser with type(parser)(..)" % where)
         return bool(default_eoe)
 
     inner_eoe = made_parser_eoe(th, "ActionTypeHint.get_class_parser", "get_class_parser")
+    if inner_eoe is None:
+        problems.append("ExcFlow: get_class_parser now inherits exit_on_error (the model takes a constant)")
+        inner_eoe = False
     help_eoe = made_parser_eoe(actions, "_ActionHelpClassPath.print_help", "_ActionHelpClassPath.print_help")
 
     # attributes add_subcommand copies from the parent parser to the sub-command parser:
@@ -692,7 +731,7 @@ def generate(problems):
     # explicit checks introduced by repairs (a missing one is a reverted repair)
     guards = []
     fn = _func(actions, "_ActionSubCommands.get_subcommands")
-    for n in ast.walk(fn) if fn else []:
+    for n in fn.body if fn else []:  # a statement of the function body itself: not under `if fail_no_subcommand:` (456b357)
         if isinstance(n, ast.If):
             t = ast.unparse(n.test)
             if "not in action._name_parser_map" in t and "subcommand is not None" in t and \
@@ -713,6 +752,12 @@ def generate(problems):
         if isinstance(n, ast.Raise) and isinstance(n.exc, ast.Call) and ex.ref(ast.unparse(n.exc.func), "_actions.py", "_check_subcommand_settings") == ".cls .TypeError":
             guards.append("subcommand_settings_raises_TypeError")
             break
+    fn = _func(core, "ArgumentParser._check_value_key")
+    if fn:
+        chk = [c.lineno for c in ast.walk(fn) if isinstance(c, ast.Call) and isinstance(c.func, ast.Name) and c.func.id == "_check_subcommand_settings"]
+        val = [c.lineno for c in ast.walk(fn) if isinstance(c, ast.Call) and isinstance(c.func, ast.Attribute) and c.func.attr == "validate"]
+        if chk and val and min(chk) < min(val):
+            guards.append("subcommand_settings@_check_value_key")
     fn = _func(th, "adapt_classes_any")
     if fn and any(isinstance(n, ast.If) and "isinstance(init_args, Namespace)" in ast.unparse(n.test) for n in ast.walk(fn)):
         guards.append("init_args_namespace@adapt_classes_any")
@@ -731,6 +776,7 @@ def generate(problems):
 
     from jsonargparse.typing import registered_type_handlers
 
+    force_pending_registrations()
     deser = []
     for k, v in registered_type_handlers.items():
         tup = v.deserializer_exceptions
@@ -752,7 +798,7 @@ def generate(problems):
     out.append("")
     out.append("def handler : Wrapper → Handler")
     order = ["outer .parseArgs", "outer .parseObject", "outer .parseString", "outer .parseEnv", "outer .parsePath", "knownArgs", "pathOwn", "links",
-             "getDefaults", "defaultPaths", "validate", "required", "lcpm", "checkValueKey", "envList", "checkType", "checkTypeLoad", "vocPath",
+             "pathRead", "dataclassBranch", "getDefaults", "defaultPaths", "validate", "required", "lcpm", "checkValueKey", "envList", "checkType", "checkTypeLoad", "vocPath",
              "anyLoad", "leafLoad", "annotated", "registered", "enumLookup", "typeImport", "floatConv", "unionTry", "subclassBranch", "callableBranch",
              "anyClasses", "dictKwargsLoad", "discard", "applyConfigPath", "applyConfigStr", "configLoad", "helpImport", "yamlLoad"]
     for w in order:
@@ -780,7 +826,7 @@ def generate(problems):
                % (raises_no_exit, exit_status, usage, errline))
     out.append("  plainExit := %d" % plain_exit)
     out.append("  innerExitOnError := %s" % ("true" if inner_eoe else "false"))
-    out.append("  helpExitOnError := %s" % ("true" if help_eoe else "false"))
+    out.append("  helpExitOnError := %s" % ("none" if help_eoe is None else "some true" if help_eoe else "some false"))
     out.append("  subInherited := [%s]" % ", ".join('"%s"' % a for a in sub_inherited))
     out.append("  printConfigCleanup := %s" % cleanup)
     out.append("  guards := [%s]" % ", ".join('"%s"' % g for g in guards))
